@@ -85,6 +85,7 @@ def free_param_cases():
 
 
 def run(rep, tier, seed):
+    rep.level = "fault_enumeration"
     rng = random.Random(seed * 1000003 + 13)
     items = []
     for cn, build in CONTEXTS.items():
